@@ -488,6 +488,22 @@ static int alloc_fault(void *caller)
 	return 0;
 }
 
+/* programmatic arming for harnesses: fail the k-th allocation from now on (once) */
+void verif_arm_alloc_fault(unsigned long k)
+{
+	fault_class = C_ALLOC;
+	fault_sticky = 0;
+	atomic_store(&fault_fired, 0);
+	fault_k = atomic_load(&counters[C_ALLOC]) + k;
+	fault_on = 1;
+}
+
+int verif_disarm_fault(void)
+{
+	fault_on = 0;
+	return atomic_load(&fault_fired);
+}
+
 void *__wrap_malloc(size_t n)
 {
 	if (alloc_fault(__builtin_return_address(0))) return NULL;
